@@ -246,16 +246,12 @@ impl BlockManager {
         Ok(this)
     }
 
-    pub fn init(&self, clean_blocks: &[BlockId]) {
+    /// `evictable_blocks` are the blocks that hold data, in the order the eviction pickers shall learn about them
+    /// (oldest content first).
+    pub fn init(&self, clean_blocks: &[BlockId], evictable_blocks: &[BlockId]) {
         let mut state = self.inner.state.write().unwrap();
-        let mut evictable_blocks: HashSet<BlockId> = self.inner.blocks.iter().map(|r| r.id()).collect();
-        state.clean_blocks = clean_blocks
-            .iter()
-            .inspect(|id| {
-                evictable_blocks.remove(id);
-            })
-            .copied()
-            .collect();
+        state.clean_blocks = clean_blocks.iter().copied().collect();
+        let evictable_blocks = evictable_blocks.iter().copied().collect_vec();
 
         // Temporarily take pickers to make borrow checker happy.
         let mut pickers = std::mem::take(&mut state.eviction_pickers);
